@@ -183,6 +183,14 @@ func initFloat32() {
 	)
 	Def(
 		c,
+		"to_bigfloat",
+		func(_ *Thread, args []value.Value) (value.Value, value.Value) {
+			self := args[0].AsFloat32()
+			return value.Ref(value.NewBigFloat(float64(self))), value.Undefined
+		},
+	)
+	Def(
+		c,
 		"to_int",
 		func(_ *Thread, args []value.Value) (value.Value, value.Value) {
 			self := args[0].AsFloat32()
